@@ -508,12 +508,14 @@ class Spec:
         return True
 
     # ---- path events --------------------------------------------------------------------------------
-    def events(self, fn, starts, ends, event_of, ret_marker=None, stack=()):
+    def events(self, fn, starts, ends, event_of, ret_marker=None, stack=(), marks=None):
         """set of event tuples, one per class of feasible paths from `starts` until a block of `ends` / a return.
         `event_of(spec, fn, call)` -> tuple of events of a call terminator (() for none), or None to descend into the
-        workspace callee"""
+        workspace callee.  `marks` {block: event}: a path that arrives at such a block ends there with that event
+        (the blocks behind a loop, which no feasible path of one iteration may reach: a `break`)"""
         memo, on = {}, set()
         ends = set(ends)
+        marks = marks or {}
 
         def here(b):
             c = fn.call_at(b)
@@ -532,6 +534,8 @@ class Spec:
             return out or {()}
 
         def go(b, first=False):
+            if b in marks and not first:
+                return {(marks[b],)}
             if b in ends and not first:
                 return {()}
             if b in on:
@@ -1886,7 +1890,13 @@ def arm_cases(prog):
         lp = loops[0]
         view = eng.views.get(lp.header)
         ends_of = lambda fn, _g=g, _h=lp.header: [_h] if fn.path == _g.path else None
-        walk_fn, starts, ends, marker = g, [lp.header], [lp.header] + list(lp.exit_bb), ('?early-return',)
+        # one iteration ends where the next one starts.  Under every case the entry exists (`next()` is Some), so no
+        # feasible path takes the exhaustion edge: a path that arrives behind the loop has left it by a `break`, and
+        # the entries that sort after this one are never applied
+        rets = set(g.return_blocks())
+        goes_on = {b for b in lp.exit_bb if b != lp.header and (rets & set(g.reachable(b)))}
+        walk_fn, starts, ends, marker = g, [lp.header], [lp.header] + [b for b in lp.exit_bb if b not in goes_on], ('?early-return',)
+        marks = {b: ('?loop-left-early',) for b in goes_on}
     else:
         cl, pre, ok = closures[0]
         if not ok:
@@ -1894,6 +1904,7 @@ def arm_cases(prog):
             return g, None, set(), info
         eng.rebind(pre)
         walk_fn, starts, ends, marker = cl, [0], [], None
+        marks = None
     res = {}
     seen = set()
     for b in BEHAVIOURS:
@@ -1904,7 +1915,7 @@ def arm_cases(prog):
                     continue
                 case = ArmCase(g, b, p, d, view)
                 spec = Spec(eng, case)
-                res[(b, p, d)] = spec.events(walk_fn, starts, ends, _insert_event(case, ends_of), ret_marker=marker)
+                res[(b, p, d)] = spec.events(walk_fn, starts, ends, _insert_event(case, ends_of), ret_marker=marker, marks=marks)
                 seen |= spec.seen_sites
     return g, res, seen, info
 
@@ -1915,4 +1926,723 @@ def all_insert_sites(prog, engine):
     for fp, bb in env_write_sites(prog, roots):
         if prog.fns[fp].crate == engine.root.crate:
             out.add((fp, bb))
+    return out
+
+
+# ---------------------------------------------------------------------------------------------------------------
+# R6: one environment — what the per-entry rules read is the environment built so far
+# ---------------------------------------------------------------------------------------------------------------
+# The value slicer sees through `clone()`: `env.get(name)` and `result_env.get(name)` are the same *value* when
+# `result_env = env.clone()`, but not the same *object* once an earlier entry of the delta has been applied.  Objects
+# are told apart here by where a reference comes from (the MIR local / parameter / captured variable it borrows).
+CLONE_NAMES = ('Clone>::clone', 'Clone::clone')
+FOLD = iters.IT + 'fold'
+
+
+def _is_clone(c):
+    return not c.indirect and (c.name or '').endswith(CLONE_NAMES) and len(c.args) == 1
+
+
+def _env_place(f, pl):
+    """the place denotes an Env (owned or behind references): an Env-typed local, possibly dereferenced"""
+    return bool(pl) and f.locals[pl[0]].get('head') == ENV_T and all(p == '*' for p in pl[1:])
+
+
+class EnvObjects:
+    """which environment object an Env-typed place of a function denotes:
+        ('param', fn, i)      the i-th parameter (an `Env`, `&Env` or `&mut Env` handed in)
+        ('upvar', fn, k)      the k-th captured variable of a closure
+        ('obj', fn, local)    an environment that lives in a local of fn (made by a call: a clone, Env::new(), ..)
+        ('phi', {roots})      different ones on different paths
+        ('?', why)            not understood
+    A clone made once per entry (inside a loop / inside a closure run per element) is a snapshot of what it was cloned
+    from and denotes the same environment; a clone made before the loop is an object of its own."""
+
+    def __init__(self, prog):
+        self.prog = prog
+        self._memo = {}
+
+    def place(self, f, pl, seen=()):
+        if f.kind == 'Closure' and pl[0] == 1:
+            flds = [p for p in pl[1:] if p != '*']
+            if len(flds) == 1 and flds[0].startswith('.') and flds[0][1:].isdigit():
+                return ('upvar', f.path, int(flds[0][1:]))
+            return ('?', 'captured place %s' % (pl,))
+        if any(p != '*' for p in pl[1:]):
+            return ('?', 'environment stored inside %s' % (f.locals[pl[0]].get('ty') or '?'))
+        return self.local(f, pl[0], seen)
+
+    def operand(self, f, op, seen=()):
+        pl = op_place(op)
+        return self.place(f, pl, seen) if pl else ('?', 'constant')
+
+    def local(self, f, n, seen=()):
+        key = (f.path, n)
+        if key in self._memo:
+            return self._memo[key]
+        if key in seen:
+            return ('?', 'cycle')
+        seen = seen + (key,)
+        defs = f.whole_defs(n)
+        rs = set()
+        if 1 <= n <= f.argc:
+            rs.add(('param', f.path, n - 1))
+        elif not defs:
+            rs.add(('?', 'no definition of _%d' % n))
+        for d in defs:
+            if d[0] == 'stmt':
+                rv = d[3]
+                if rv['r'] in ('ref', 'cfd', 'rawptr'):
+                    rs.add(self.place(f, rv['p'], seen))
+                elif rv['r'] in ('use', 'cast') and op_place(rv['o']):
+                    rs.add(self.place(f, op_place(rv['o']), seen))
+                elif rv['r'] == 'agg' and rv.get('kind') == 'adt' and rv.get('adt') == ENV_T:
+                    rs.add(('obj', f.path, n))
+                else:
+                    rs.add(('?', 'definition of _%d' % n))
+            elif d[0] == 'call':
+                c = d[3]
+                ty = f.locals[n].get('ty') or ''
+                if _is_clone(c) and _env_place(f, op_place(c.args[0])):
+                    if f.kind == 'Closure' or f.in_loop(c.bb):
+                        rs.add(self.operand(f, c.args[0], seen))      # a snapshot per entry
+                    else:
+                        rs.add(('obj', f.path, n))
+                elif ty.startswith('&') and c.args and _env_place(f, op_place(c.args[0])):
+                    rs.add(self.operand(f, c.args[0], seen))          # `env.insert(..)` hands its receiver back
+                elif ty == ENV_T and len(self._owned_args(f, c)) == 1:
+                    # an environment moved into a call that gives an environment back is threaded through it
+                    # (`delta.apply_owned(env)`, `entries.fold(env, step)`); that the callee does hand back what it
+                    # was given is checked where the callee is analysed (running_env)
+                    rs.add(self.operand(f, self._owned_args(f, c)[0], seen))
+                else:
+                    rs.add(('obj', f.path, n))
+            else:
+                rs.add(('?', 'definition of _%d' % n))
+        rs = {x for r in rs for x in (r[1] if r[0] == 'phi' else (r,))}
+        res = rs.pop() if len(rs) == 1 else ('phi', frozenset(rs))
+        self._memo[key] = res
+        return res
+
+    @staticmethod
+    def _owned_args(f, c):
+        return [a for a in c.args if op_place(a) and len(op_place(a)) == 1 and f.locals[op_place(a)[0]].get('ty') == ENV_T]
+
+    def uses(self, f):
+        """[(Call, argument index, root, may the callee change it?)] of the Env-typed arguments of the calls of f
+        (clones aside: they make a new object, which is followed from its own uses)"""
+        out = []
+        for c in f.calls:
+            if _is_clone(c):
+                continue
+            for i, a in enumerate(c.args):
+                pl = op_place(a)
+                if pl and _env_place(f, pl):
+                    ty = f.locals[pl[0]].get('ty') or ''
+                    out.append((c, i, self.place(f, pl), len(pl) == 1 and not ty.startswith('&') or ty.startswith('&mut')))
+        return out
+
+    def cloned_from(self, f, n):
+        """roots of what the environment living in local n of f is a (top level) clone of"""
+        out = set()
+        for d in f.whole_defs(n):
+            if d[0] == 'call' and _is_clone(d[3]) and _env_place(f, op_place(d[3].args[0])):
+                out.add(self.operand(f, d[3].args[0]))
+            else:
+                out.add(('?', 'not a clone'))
+        return out
+
+    def describe(self, r):
+        if r[0] == 'param':
+            f = self.prog.fns[r[1]]
+            return 'parameter `%s` of %s' % (f.local_name(r[2] + 1) or '_%d' % (r[2] + 1), r[1].split('::')[-1])
+        if r[0] == 'obj':
+            f = self.prog.fns[r[1]]
+            return 'local `%s` of %s' % (f.local_name(r[2]) or '_%d' % r[2], r[1].split('::')[-1])
+        if r[0] == 'upvar':
+            return 'captured variable #%d of %s' % (r[2], r[1].split('::')[-1])
+        if r[0] == 'phi':
+            return ' / '.join(sorted(self.describe(x) for x in r[1]))
+        return 'unknown (%s)' % (r[1],)
+
+
+def running_env(prog):
+    """[(kind 'violated'|'unproven', where, message)] for the obligation: inside the per-delta application (its core
+    function, the closures and private helpers it enters) every call that is handed an environment is handed *the*
+    environment being built — the one that starts as the (clone of the) input env, receives the inserts and is
+    returned.  ([] = holds), plus a description of the accumulator"""
+    g = delta_family(prog)[0] or prog.fn(L.DAPPLY)
+    eo = EnvObjects(prog)
+    region = {p: f for p, f in prog.reach([g]).items() if f.crate == g.crate}
+    out = []
+    R = {}
+    gw = '%s:%d' % (g.file, g.line)
+
+    def short(c):
+        return (c.name or 'indirect call').split('::<')[0].split('::')[-1]
+
+    for f in sorted(region.values(), key=lambda f: f.path):
+        by_root, written = {}, []
+        for c, i, r, mut in eo.uses(f):
+            for x in (r[1] if r[0] == 'phi' else (r,)):
+                by_root.setdefault(x, []).append(c)
+                if mut and x not in written:
+                    written.append(x)
+        if not by_root:
+            continue
+        unknown_ = [r for r in by_root if r[0] == '?']
+        if unknown_:
+            c = by_root[unknown_[0]][0]
+            out.append(('unproven', c.where(), 'the environment handed to %s is not understood: %s' % (short(c), unknown_[0][1])))
+            continue
+        if len(by_root) > 1:
+            # the environment that is written is the one being built; anything else that is consulted is stale
+            others = [r for r in by_root if r not in written] or list(by_root)[1:]
+            c = by_root[others[0]][0]
+            out.append(('violated', c.where(), '%s works on two environments: %s is applied to the %s while the environment being built '
+                        'is the %s — entries of the same delta that were applied before are not seen' %
+                        (f.path.split('::')[-1], short(c), eo.describe(others[0]), eo.describe((written or list(by_root))[0]))))
+            continue
+        R[f.path] = next(iter(by_root))
+
+    # the accumulator of the core function: starts from the input env, is what is returned
+    acc = None
+    rg = R.get(g.path)
+    ret = eo.local(g, 0)
+    env_i = 1
+    acc = rg if rg is not None else ret
+    if acc[0] == 'param' and acc[1] == g.path:
+        if not (acc[2] == env_i and g.args[env_i] == ENV_T):
+            out.append(('violated' if acc[2] == env_i else 'unproven', gw,
+                        'the environment the entries are applied to is the %s, not a copy of the input env' % eo.describe(acc)))
+    elif acc[0] == 'obj' and acc[1] == g.path:
+        if eo.cloned_from(g, acc[2]) != {('param', g.path, env_i)}:
+            out.append(('unproven', gw, 'the environment the entries are applied to (%s) does not start as a clone of the input env' % eo.describe(acc)))
+    else:
+        out.append(('unproven', gw, 'the environment the entries are applied to is the %s' % eo.describe(acc)))
+    if rg is not None and ret != rg:
+        out.append(('violated' if ret[0] in ('param', 'obj') else 'unproven', gw,
+                    'the environment returned (%s) is not the one the entries were applied to (%s)' % (eo.describe(ret), eo.describe(rg))))
+
+    # helpers and closures: what they work on is what their caller hands them
+    def closure_site(F):
+        P = prog.fns.get(F.parent) if F.parent else None
+        cands = [P] if P is not None else []
+        cands += [f for f in region.values() if F.path.startswith(f.path + '::{closure#')]
+        for P in cands:
+            for bi, b in enumerate(P.blocks):
+                for s in b['s']:
+                    if s[0] == '=' and s[2]['r'] == 'agg' and s[2].get('kind') == 'closure' and s[2].get('def') == F.path:
+                        return P, bi, s
+        return None, None, None
+
+    for fp, r in sorted(R.items()):
+        F = region[fp]
+        if F.path == g.path:
+            continue
+        fw = '%s:%d' % (F.file, F.line)
+        if r[0] == 'obj':
+            out.append(('unproven', fw, '%s works on an environment of its own (%s)' % (fp.split('::')[-1], eo.describe(r))))
+            continue
+        if r[0] == 'upvar':
+            P, bi, s = closure_site(F)
+            if P is None or r[2] >= len(s[2]['ops']):
+                out.append(('unproven', fw, 'creation of closure %s not found' % fp.split('::')[-1]))
+                continue
+            cr = eo.operand(P, s[2]['ops'][r[2]])
+            want = R.get(P.path) or (ret if P.path == g.path else None)
+            if want is None or cr != want:
+                out.append(('violated' if want is not None and cr[0] in ('param', 'obj') else 'unproven', fw,
+                            'closure %s works on the %s, not on the environment being built%s' %
+                            (fp.split('::')[-1], eo.describe(cr), (' (%s)' % eo.describe(want)) if want else '')))
+            continue
+        if r[0] == 'param' and F.kind == 'Closure':
+            # the accumulator of a fold over the entries: handed on from call to call, started from the caller's
+            P, bi, s = closure_site(F)
+            folds = [c for c in (P.calls if P is not None else []) if not c.indirect and c.decl == FOLD and len(c.args) == 3
+                     and any(h.path == F.path for h in prog.fn_item_args(c))]
+            if r[2] != 1 or len(folds) != 1 or eo.local(F, 0) != r:
+                out.append(('unproven', fw, 'closure %s is handed an environment as a parameter, and is not the step of one fold that '
+                            'returns its accumulator' % fp.split('::')[-1]))
+                continue
+            init = eo.operand(P, folds[0].args[1])
+            want = R.get(P.path)
+            if want is not None:
+                ok = init == want
+            else:
+                ok = P.path == g.path and ((init == ('param', g.path, env_i) and g.args[env_i] == ENV_T) or
+                                           (init[0] == 'obj' and init[1] == g.path and eo.cloned_from(g, init[2]) == {('param', g.path, env_i)})) \
+                    and folds[0].dest and len(folds[0].dest) == 1 and ret == ('obj', g.path, folds[0].dest[0])
+            if not ok:
+                out.append(('unproven', fw, 'the fold over the entries does not start from the environment being built / is not what is returned'))
+            continue
+        if r[0] == 'param':
+            if F.args[r[2]] == ENV_T and F.ret == ENV_T and eo.local(F, 0) != r:
+                out.append(('unproven', fw, '%s takes the environment by value and returns another one (%s)' % (fp.split('::')[-1], eo.describe(eo.local(F, 0)))))
+            sites = [(f, c) for f in region.values() for c in f.calls if not c.indirect and any(h.path == fp for h in prog.callee_fns(c))]
+            if not sites:
+                out.append(('unproven', fw, 'no call of %s found' % fp.split('::')[-1]))
+            for f, c in sites:
+                if r[2] >= len(c.args) or not op_place(c.args[r[2]]):
+                    out.append(('unproven', c.where(), 'argument of %s not understood' % short(c)))
+                    continue
+                cr = eo.place(f, op_place(c.args[r[2]]))
+                want = R.get(f.path) or (ret if f.path == g.path else None)
+                if want is None or cr != want:
+                    out.append(('violated' if want is not None and cr[0] in ('param', 'obj') else 'unproven', c.where(),
+                                '%s is handed the %s, not the environment being built%s' %
+                                (short(c), eo.describe(cr), (' (%s)' % eo.describe(want)) if want else '')))
+            continue
+        out.append(('unproven', fw, '%s works on %s' % (fp.split('::')[-1], eo.describe(r))))
+    return g, out, eo.describe(acc)
+
+
+# ---------------------------------------------------------------------------------------------------------------
+# R7: the Env primitives mean what the case analysis of R5 takes them to mean
+# ---------------------------------------------------------------------------------------------------------------
+# R5 evaluates the per-entry rules over a model of the environment: `get(NAME)` is None exactly when the variable is
+# unset and the stored string otherwise, `contains_key(NAME)` is "the variable is set" (an empty string is set),
+# `insert(k, v)` stores v under k whatever was there and whatever v is.  Those are facts about libcnb/src/env.rs.
+CONVERSIONS = ('Into::into', 'From::from', 'Clone>::clone', 'Clone::clone', 'ToOwned>::to_owned', 'ToOwned::to_owned', 'AsRef::as_ref',
+               'Borrow::borrow', 'Deref::deref', '::as_os_str', '::to_os_string', '::into_os_string', '::as_ref', '::borrow', '::into',
+               '::to_owned', '::clone')
+ENV_INNER = 'inner'
+
+
+def conv_root(v):
+    """v with value-preserving conversions (into / as_ref / clone / borrow ..) peeled"""
+    v = strip(v)
+    for _ in range(8):
+        if v[0] == 'call' and len(v[2]) == 1 and v[1].endswith(CONVERSIONS):
+            v = strip(v[2][0])
+        else:
+            break
+    return v
+
+
+def _is_param(v, f, i):
+    v = conv_root(v)
+    return v[0] == 'param' and v[1] == f.path and v[2] == i
+
+
+def env_map_field(prog):
+    """name of the field of Env that holds the variables (its only field, a map from OsString to OsString)"""
+    try:
+        flds = [fl for v in prog.adt(ENV_T)['variants'] for fl in v['fields']]
+    except Exception:
+        return ENV_INNER
+    maps = [fl['name'] for fl in flds if 'Map<std::ffi::OsString, std::ffi::OsString' in fl['ty']]
+    return maps[0] if len(flds) == 1 and len(maps) == 1 else ENV_INNER
+
+
+def _is_inner_of(v, f, i=0):
+    v = strip(v)
+    return v[0] == 'field' and v[2] == env_map_field(f.prog) and _is_param(v[1], f, i)
+
+
+class EnvModel:
+    """normal forms of the values the Env accessors return, in terms of the map inside the Env"""
+
+    def __init__(self, prog, sl):
+        self.prog, self.sl = prog, sl
+
+    def lookup(self, f, v, d=0):
+        """v as an Option of the stored string of parameter 1 (the key) in self.inner:
+        'exact' (Some(stored) iff present) | 'narrowed' (None although present, for some stored values) |
+        'mapped' (Some iff present, of something else) | None (not understood)"""
+        v = strip(v)
+        if d > 8 or v[0] != 'call':
+            return None
+        n, args = v[1], v[2]
+        tail = n.split('::')[-1]
+        if n.startswith(HM) and tail.split('<')[0] == 'get' and len(args) == 2:
+            return 'exact' if _is_inner_of(args[0], f) and _is_param(args[1], f, 1) else None
+        if n.startswith('std::option::Option::') and args:
+            o = self.lookup(f, args[0], d + 1)
+            if o is None:
+                return None
+            if tail in ('filter', 'take_if') and len(args) == 2:
+                return 'narrowed' if o in ('exact', 'narrowed') else o
+            if tail in ('as_ref', 'as_deref', 'copied', 'cloned', 'as_mut') and len(args) == 1:
+                return o
+            if tail == 'map' and len(args) == 2:
+                return 'mapped' if o == 'exact' else o       # Some exactly when it was, another payload
+            return None
+        if n in self.prog.fns:
+            iv = self.sl.inline_call(v)
+            if iv is not None and iv != v:
+                return self.lookup(f, iv, d + 1)
+        return None
+
+    def presence(self, f, v, d=0):
+        """v as a boolean about the key (parameter 1): 'exact' (true iff present) | 'narrowed' (false although
+        present, for some stored values) | 'negated' | None"""
+        v = strip(v)
+        if d > 8:
+            return None
+        if v[0] == 'un' and v[1] == 'Not':
+            p = self.presence(f, v[2], d + 1)
+            return {'exact': 'negated', 'negated': 'exact'}.get(p)
+        if v[0] == 'bin' and v[1] == 'BitAnd':
+            ps = [self.presence(f, v[2], d + 1), self.presence(f, v[3], d + 1)]
+            if 'exact' in ps or 'narrowed' in ps:
+                return 'narrowed'
+            return None
+        if v[0] != 'call':
+            return None
+        n, args = v[1], v[2]
+        tail = n.split('::')[-1]
+        if n.startswith(HM) and tail.split('<')[0] == 'contains_key' and len(args) == 2:
+            return 'exact' if _is_inner_of(args[0], f) and _is_param(args[1], f, 1) else None
+        if n.startswith('std::option::Option::') and args:
+            o = self.lookup(f, args[0], d + 1)
+            if o is None:
+                return None
+            if tail == 'is_some' and len(args) == 1:
+                return {'mapped': 'exact'}.get(o, o)
+            if tail == 'is_none' and len(args) == 1:
+                return 'negated' if o == 'exact' else None
+            if tail == 'is_some_and' and len(args) == 2:
+                return 'narrowed' if o in ('exact', 'narrowed') else None
+            return None
+        if n in self.prog.fns:
+            iv = self.sl.inline_call(v)
+            if iv is not None and iv != v:
+                return self.presence(f, iv, d + 1)
+        return None
+
+
+def map_writes(f):
+    """calls of f that are handed `&mut` the map inside its Env"""
+    return [c for c in f.calls if is_env_map_write(f, c)]
+
+
+def on_every_path(f, bb):
+    """every path from the entry of f to a return passes through block bb"""
+    rets = f.return_blocks()
+    return bool(rets) and all(f.dominates(bb, r) for r in rets)
+
+
+def env_primitives(prog, sl):
+    """[(subject, status 'holds'|'violated'|'unproven', where, message)] for Env::insert / get / contains_key and the
+    derived Clone the delta application starts from"""
+    out = []
+    m = EnvModel(prog, sl)
+
+    def fn(path):
+        return prog.fns.get(path)
+
+    # ---- insert: stores value under key, always --------------------------------------------------------------
+    f = fn(ENV_INSERT)
+    if f is None or f.argc != 3:
+        out.append(('env-insert', 'unproven', 'libcnb/src/env.rs', 'Env::insert(&mut self, key, value) not found'))
+    else:
+        w = '%s:%d' % (f.file, f.line)
+        ws = map_writes(f)
+        deeper = [c for c in f.calls if not c.indirect and any(h.kind != 'Closure' and h.path != f.path and env_write_sites(prog, [h])
+                                                               for h in prog.callee_fns(c))]
+        cls = [h for h in prog.closures_of(f) if map_writes(h)]
+        if deeper or cls or len(ws) != 1 or not (ws[0].name or '').startswith(HM) or \
+                (ws[0].name or '').split('::')[-1].split('<')[0] != 'insert' or len(ws[0].args) != 3:
+            out.append(('env-insert', 'unproven', w, 'Env::insert is not one HashMap::insert into self.inner: %s' %
+                        ([(c.name or '?').split('::')[-1] for c in ws + deeper] or 'no write of the map')))
+        else:
+            c = ws[0]
+            recv = sl.operand(f, c.args[0])
+            k, v = sl.operand(f, c.args[1]), sl.operand(f, c.args[2])
+            if not _is_inner_of(recv, f):
+                out.append(('env-insert', 'unproven', c.where(), 'Env::insert writes %s' % vstr(recv)[:80]))
+            elif _is_param(k, f, 2) and _is_param(v, f, 1):
+                out.append(('env-insert', 'violated', c.where(), 'Env::insert stores the key under the value'))
+            elif not (_is_param(k, f, 1) and _is_param(v, f, 2)):
+                out.append(('env-insert', 'unproven', c.where(), 'Env::insert stores %s under %s, not the value under the key as given' %
+                            (vstr(v)[:60], vstr(k)[:60])))
+            elif not on_every_path(f, c.bb):
+                conds = [('' if cd.outcome else 'not ') + vstr(cd.value)[:80] if cd.kind == 'bool' else
+                         '%s is %s' % (vstr(cd.value)[:60], '|'.join(sorted(cd.outcome)) if cd.kind == 'variant' else cd.outcome)
+                         for cd in conditions(f, c.bb, sl) if cd.kind != 'variant' or cd.outcome]
+                out.append(('env-insert', 'violated', c.where(), 'Env::insert does not store the value on every path (only when %s): an override / append '
+                            'with such a value leaves the previous value in place' % (' and '.join(conds) or 'some condition holds')))
+            else:
+                out.append(('env-insert', 'holds', w, 'Env::insert = self.inner.insert(key.into(), value.into()), unconditionally'))
+    # ---- get: the stored string, None exactly when there is none ------------------------------------------------
+    f = fn(ENV_GET)
+    if f is None or f.argc != 2:
+        out.append(('env-get', 'unproven', 'libcnb/src/env.rs', 'Env::get(&self, key) not found'))
+    else:
+        w = '%s:%d' % (f.file, f.line)
+        rv = sl.local(f, 0)
+        r = m.lookup(f, rv)
+        if r == 'exact' and not map_writes(f):
+            out.append(('env-get', 'holds', w, 'Env::get = self.inner.get(key)'))
+        elif r == 'narrowed':
+            out.append(('env-get', 'violated', w, 'Env::get returns None for some variables that are set (the lookup is filtered by the stored '
+                        'value): a set variable is reported as unset: ' + vstr(rv)[:120]))
+        else:
+            out.append(('env-get', 'unproven', w, 'Env::get is not the lookup of the key in self.inner: ' + vstr(rv)[:120]))
+    # ---- contains_key: set, whatever the value -------------------------------------------------------------------
+    f = fn(ENV_CONTAINS)
+    if f is None or f.argc != 2:
+        out.append(('env-contains-key', 'unproven', 'libcnb/src/env.rs', 'Env::contains_key(&self, key) not found'))
+    else:
+        w = '%s:%d' % (f.file, f.line)
+        rv = sl.local(f, 0)
+        r = m.presence(f, rv)
+        if r == 'exact' and not map_writes(f):
+            out.append(('env-contains-key', 'holds', w, 'Env::contains_key = the key is present in self.inner'))
+        elif r in ('narrowed', 'negated'):
+            out.append(('env-contains-key', 'violated', w, 'Env::contains_key is not "the variable is set": it is false for some variables that '
+                        'are set (e.g. to the empty string), which `default` then overwrites: ' + vstr(rv)[:120]))
+        else:
+            out.append(('env-contains-key', 'unproven', w, 'Env::contains_key is not the presence of the key in self.inner: ' + vstr(rv)[:120]))
+    # ---- clone: what the application starts from is a faithful copy ------------------------------------------------
+    cf = fn('<%s as std::clone::Clone>::clone' % ENV_T)
+    if cf is None:
+        out.append(('env-clone', 'unproven', 'libcnb/src/env.rs', 'Clone for Env not found'))
+    elif cf.derived:
+        out.append(('env-clone', 'holds', '%s:%d' % (cf.file, cf.line), 'Clone for Env is derived (field-wise copy)'))
+    else:
+        rv = strip(sl.local(cf, 0))
+        ok = rv[0] == 'agg' and rv[1] == ENV_T and len(rv[3]) == 1 and strip(rv[3][0][1])[0] == 'call' and \
+            strip(rv[3][0][1])[1].endswith(CLONE_NAMES) and _is_inner_of(strip(rv[3][0][1])[2][0], cf)
+        out.append(('env-clone', 'holds' if ok else 'unproven', '%s:%d' % (cf.file, cf.line),
+                    'Clone for Env copies the map' if ok else 'hand-written Clone for Env is not a copy of the map: ' + vstr(rv)[:100]))
+    return out
+
+
+# ---------------------------------------------------------------------------------------------------------------
+# R8: the entries apply() reads for a scope are the ones insert() stored for that scope
+# ---------------------------------------------------------------------------------------------------------------
+# "entries of scope X" is defined by LayerEnv::insert: the (behaviour, name, value) given for scope X must end up —
+# unchanged, and next to what was stored before — in the delta R1 shows LayerEnv::apply to fold for X.
+LE_INSERT = L.LE + '::insert'
+LE_CHAIN = L.LE + '::chainable_insert'
+LE_EMPTY = L.LE + '::apply_to_empty'
+ROUTE = {'All': 'all', 'Build': 'build', 'Launch': 'launch'}
+HM_OCC = HM_ENTRY + 'OccupiedEntry'
+HM_VAC = HM_ENTRY + 'VacantEntry'
+REPLACING = ('insert', 'insert_entry', 'remove', 'remove_entry', 'clear', 'retain', 'drain', 'extract_if', 'and_modify', 'replace_entry',
+             'replace_key')
+
+
+def _tail(n):
+    return (n or '').split('::')[-1].split('<')[0]
+
+
+def _no_arg_fresh(v):
+    v = strip(v)
+    return v[0] == 'call' and not v[2] and _tail(v[1]) in ('new', 'default')
+
+
+def is_fresh_delta(sl, v):
+    """v is an empty LayerEnvDelta: LayerEnvDelta::new() / ::default(), or what they return"""
+    v = strip(v)
+    if _no_arg_fresh(v) and (v[1].startswith(LED + '::') or v[1].endswith('Default>::default') or v[1].endswith('Default::default')):
+        iv = strip(sl.inline_deep(v))
+        if iv == v:
+            return True     # the derived Default
+        v = iv
+    if v[0] == 'agg' and v[1] == LED:
+        return all(_no_arg_fresh(strip(sl.inline_deep(x))) for _, x in v[3])
+    return False
+
+
+def fresh_delta_maker(sl, v):
+    """v is something that, called without arguments, makes an empty delta (LayerEnvDelta::new, Default::default, || ..)"""
+    v = strip(v)
+    if v[0] == 'fnitem':
+        return is_fresh_delta(sl, ('call', v[1], (), None))
+    if v[0] == 'closure':
+        r = sl.apply_closure(v, ())
+        return r is not None and is_fresh_delta(sl, r)
+    return False
+
+
+def process_slot(sl, f, v):
+    """v as `&mut` the delta stored for the process name of the scope (parameter 1 of f), created empty when there is
+    none and otherwise the one that is there: 'ok' | 'replaces' (the stored delta is overwritten) |
+    'key:<shown>' (a slot of self.process under another key than the process name as given) | None"""
+    badkey = []
+
+    def entry_of(e):
+        e = strip(e)
+        if e[0] == 'call' and e[1].startswith(HM) and _tail(e[1]) == 'entry' and len(e[2]) == 2 and L.self_field(f, e[2][0]) == 'process':
+            key = conv_root(e[2][1])
+            if key[0] == 'field' and key[2] == '0' and key[1][0] == 'variant' and key[1][2] == 'Process' and _is_param(key[1][1], f, 1):
+                return canon(e)
+            badkey.append(vstr(key)[:80])
+        return None
+
+    def alt(a):
+        a = strip(a)
+        if a[0] != 'call' or not a[2]:
+            return None
+        n, t = a[1], _tail(a[1])
+        x = strip(a[2][0])
+        if n.startswith(HM_OCC) and t == 'into_mut' and len(a[2]) == 1:
+            if x[0] == 'field' and x[2] == '0' and x[1][0] == 'variant' and x[1][2] == 'Occupied':
+                e = entry_of(x[1][1])
+                return ('occupied', e) if e else None
+            if x[0] == 'call' and x[1].startswith(HM_ENTRY + 'Entry') and _tail(x[1]) == 'insert_entry' and len(x[2]) == 2 and entry_of(x[2][0]):
+                return ('replaces', entry_of(x[2][0]))
+            return None
+        if n.startswith(HM_VAC) and t == 'insert' and len(a[2]) == 2:
+            if x[0] == 'field' and x[2] == '0' and x[1][0] == 'variant' and x[1][2] == 'Vacant' and is_fresh_delta(sl, a[2][1]):
+                e = entry_of(x[1][1])
+                return ('vacant', e) if e else None
+            return None
+        if n.startswith(HM_ENTRY + 'Entry'):
+            e = entry_of(x)
+            if e is None:
+                return None
+            if t == 'or_default' and len(a[2]) == 1:
+                return ('both', e)
+            if t == 'or_insert' and len(a[2]) == 2 and is_fresh_delta(sl, a[2][1]):
+                return ('both', e)
+            if t == 'or_insert_with' and len(a[2]) == 2 and fresh_delta_maker(sl, a[2][1]):
+                return ('both', e)
+        return None
+
+    v = strip(v)
+    alts = [alt(x) for x in (v[1] if v[0] == 'phi' else (v,))]
+    if badkey:
+        return 'key:' + badkey[0]
+    if any(a is None for a in alts) or len({a[1] for a in alts}) != 1:
+        return None
+    kinds = {a[0] for a in alts}
+    if 'replaces' in kinds:
+        return 'replaces'
+    if kinds == {'both'} or kinds == {'occupied', 'vacant'}:
+        return 'ok'
+    return None
+
+
+def insert_routing(prog, sl):
+    """[(subject, status, where, message)]: LayerEnv::insert per Scope variant, LayerEnvDelta::insert,
+    chainable_insert and apply_to_empty"""
+    out = []
+    f = prog.fns.get(LE_INSERT)
+    variants = [v['name'] for v in prog.adt(SCOPE)['variants']]
+    if f is None or f.argc != 5:
+        for v in variants:
+            out.append(('insert/' + v, 'unproven', 'libcnb/src/layer_env.rs', 'LayerEnv::insert(&mut self, scope, behaviour, name, value) not found'))
+    else:
+        w = '%s:%d' % (f.file, f.line)
+        eng = Engine(prog, f)
+        for v in variants:
+            spec = Spec(eng, ScopeCase(f, v))
+            subj = 'insert/' + v
+            region = [f] + [h for h in prog.reach([f]).values() if h.crate == f.crate and h.path != f.path and h.path != L.INSERT
+                            and h.kind != 'Closure' and not h.path.startswith(LED)]
+            stores = [c for c in f.calls if c.name == L.INSERT and spec.block_feasible(f, c.bb)]
+            hidden = [c for h in region[1:] for c in h.calls if c.name == L.INSERT]
+            if hidden or len(stores) != 1 or len(stores[0].args) != 4:
+                out.append((subj, 'violated' if not stores and not hidden else 'unproven', w,
+                            'Scope::%s: %s' % (v, 'the entry is not stored in any delta' if not stores and not hidden else
+                                                '%d stores of the entry (%d inside helpers)' % (len(stores) + len(hidden), len(hidden)))))
+                continue
+            c = stores[0]
+            if not spec.certain(f, [], c.bb):
+                out.append((subj, 'violated', c.where(), 'Scope::%s: the entry is stored on some paths only' % v))
+                continue
+            recv = strip(spec.asl.operand(f, c.args[0]))
+            args = [spec.asl.operand(f, a) for a in c.args[1:]]
+            if not all(_is_param(a, f, 2 + i) for i, a in enumerate(args)):
+                swapped = _is_param(args[1], f, 4) and _is_param(args[2], f, 3)
+                out.append((subj, 'violated' if swapped else 'unproven', c.where(),
+                            'Scope::%s: the delta is given (%s), not (behaviour, name, value) as passed in' % (v, ', '.join(vstr(a)[:30] for a in args))))
+                continue
+            # nothing stored for a process before may be thrown away on the way
+            lost = []
+            for c2 in f.calls:
+                if c2.indirect or not spec.block_feasible(f, c2.bb) or _tail(c2.name) not in REPLACING or not c2.args:
+                    continue
+                if not ((c2.name or '').startswith(HM) or (c2.name or '').startswith(HM_ENTRY)):
+                    continue
+                if (c2.name or '').startswith(HM_VAC):
+                    continue        # filling a vacant slot replaces nothing
+                a0 = spec.asl.operand(f, c2.args[0])
+                if any(L.self_field(f, x) == 'process' for x in walk(a0)):
+                    lost.append(c2)
+            if v in ROUTE:
+                fld = L.self_field(f, recv)
+                if fld is None:
+                    out.append((subj, 'unproven', c.where(), 'Scope::%s: the entry is stored in %s' % (v, vstr(recv)[:80])))
+                elif fld != ROUTE[v]:
+                    out.append((subj, 'violated', c.where(), 'an entry inserted for Scope::%s is stored in self.%s; LayerEnv::apply reads self.%s for '
+                                'that scope, so the entry has no effect there and takes effect for another scope' % (v, fld, ROUTE[v])))
+                elif lost:
+                    out.append((subj, 'unproven', lost[0].where(), 'Scope::%s: %s on self.process' % (v, _tail(lost[0].name))))
+                else:
+                    out.append((subj, 'holds', w, 'Scope::%s -> self.%s.insert(behaviour, name, value)' % (v, fld)))
+            else:
+                ps = process_slot(spec.asl, f, recv)
+                if ps == 'replaces' or (ps == 'ok' and lost):
+                    out.append((subj, 'violated', (lost[0] if lost else c).where(), 'Scope::Process: the delta stored for the process is replaced by an empty one '
+                                'before the entry is added — entries inserted earlier for the same process are lost'))
+                elif ps is not None and ps.startswith('key:'):
+                    out.append((subj, 'violated', c.where(), 'Scope::Process: the delta is kept under %s, not under the process name as given — LayerEnv::apply '
+                                'looks it up under the name of the queried scope (R1)' % ps[4:]))
+                elif ps != 'ok':
+                    out.append((subj, 'unproven', c.where(), 'Scope::Process: the entry is not stored in self.process[name] (kept when present, created '
+                                'empty otherwise): ' + vstr(recv)[:140]))
+                else:
+                    out.append((subj, 'holds', w, 'Scope::Process(p) -> self.process[p] (created empty when missing).insert(behaviour, name, value)'))
+    # ---- LayerEnvDelta::insert: entries[(behaviour, name)] = value -----------------------------------------------
+    d = prog.fns.get(L.INSERT)
+    if d is None or d.argc != 4:
+        out.append(('delta-insert', 'unproven', 'libcnb/src/layer_env.rs', 'LayerEnvDelta::insert not found'))
+    else:
+        w = '%s:%d' % (d.file, d.line)
+        ws = [c for c in d.calls if not c.indirect and c.args and op_place(c.args[0]) and
+              L.self_field(d, sl.operand(d, c.args[0])) == 'entries' and (d.locals[op_place(c.args[0])[0]].get('ty') or '').startswith('&mut')]
+        if len(ws) != 1 or _tail(ws[0].name) != 'insert' or 'BTreeMap' not in (ws[0].name or '') or len(ws[0].args) != 3:
+            out.append(('delta-insert', 'unproven', w, 'LayerEnvDelta::insert is not one BTreeMap::insert into self.entries: %s' %
+                        [(c.name or '?').split('::')[-1] for c in ws]))
+        else:
+            c = ws[0]
+            key, val = strip(sl.operand(d, c.args[1])), sl.operand(d, c.args[2])
+            kok = key[0] == 'tuple' and len(key[1]) == 2 and _is_param(key[1][0], d, 1) and _is_param(key[1][1], d, 2)
+            if kok and _is_param(val, d, 3) and on_every_path(d, c.bb):
+                out.append(('delta-insert', 'holds', w, 'entries.insert((behaviour, name), value)'))
+            elif key[0] == 'tuple' and len(key[1]) == 2 and _is_param(key[1][1], d, 3) and _is_param(val, d, 2):
+                out.append(('delta-insert', 'violated', c.where(), 'name and value are swapped'))
+            elif kok and _is_param(val, d, 3):
+                out.append(('delta-insert', 'violated', c.where(), 'the entry is stored on some paths only'))
+            else:
+                out.append(('delta-insert', 'unproven', c.where(), 'entries.insert(%s, %s) is not ((behaviour, name), value)' % (vstr(key)[:60], vstr(val)[:40])))
+    # ---- chainable_insert = insert, then self ------------------------------------------------------------------------
+    ch = prog.fns.get(LE_CHAIN)
+    if ch is None or ch.argc != 5:
+        out.append(('chainable-insert', 'unproven', 'libcnb/src/layer_env.rs', 'LayerEnv::chainable_insert not found'))
+    else:
+        w = '%s:%d' % (ch.file, ch.line)
+        cs = [c for c in ch.calls if c.name == LE_INSERT]
+        rv = strip(sl.local(ch, 0))
+        if len(cs) == 1 and len(cs[0].args) == 5 and on_every_path(ch, cs[0].bb) and \
+                all(_is_param(sl.operand(ch, a), ch, i) for i, a in enumerate(cs[0].args)) and _is_param(rv, ch, 0):
+            out.append(('chainable-insert', 'holds', w, 'chainable_insert = { self.insert(scope, behaviour, name, value); self }'))
+        else:
+            shown = [vstr(sl.operand(ch, a))[:30] for a in cs[0].args] if cs else []
+            out.append(('chainable-insert', 'violated' if len(cs) == 1 and len(shown) == 5 and sorted(shown) == sorted(ch.local_name(i + 1) or '' for i in range(5)) else 'unproven',
+                        w, 'chainable_insert is not `self.insert(scope, behaviour, name, value); self`: insert(%s) -> %s' % (', '.join(shown), vstr(rv)[:40])))
+    # ---- apply_to_empty = apply(scope, <no variables>) ----------------------------------------------------------------
+    ae = prog.fns.get(LE_EMPTY)
+    if ae is None or ae.argc != 2:
+        out.append(('apply-to-empty', 'unproven', 'libcnb/src/layer_env.rs', 'LayerEnv::apply_to_empty not found'))
+    else:
+        w = '%s:%d' % (ae.file, ae.line)
+        rv = strip(sl.inline_deep(sl.local(ae, 0), keep=(L.APPLY,)))
+        ok = rv[0] == 'call' and rv[1] == L.APPLY and len(rv[2]) == 3 and _is_param(rv[2][0], ae, 0) and _is_param(rv[2][1], ae, 1)
+        if ok:
+            e = strip(rv[2][2])
+            empty = (e[0] == 'agg' and e[1] == ENV_T and len(e[3]) == 1 and _no_arg_fresh(e[3][0][1])) or \
+                (_no_arg_fresh(e) and (e[1].endswith('Default>::default') or e[1].endswith('Default::default')))
+            if empty:
+                out.append(('apply-to-empty', 'holds', w, 'apply_to_empty(scope) = apply(scope, &<no variables>)'))
+            else:
+                out.append(('apply-to-empty', 'violated' if e[0] == 'call' or e[0] == 'agg' else 'unproven', w,
+                            'apply_to_empty starts from %s, not from an environment without variables' % vstr(e)[:80]))
+        else:
+            out.append(('apply-to-empty', 'unproven', w, 'apply_to_empty is not self.apply(scope, &<empty>): ' + vstr(rv)[:120]))
     return out
